@@ -33,7 +33,6 @@ from ..lowlevel.api_async.backend.abc import AsyncBackend, TaskGroup
 from ..lowlevel.api_async.backend.utils import BuiltinAsyncBackendLiteral
 from ..lowlevel.api_async.servers import stream as _stream_server
 from ..lowlevel.api_async.transports.abc import AsyncListener, AsyncStreamTransport
-from ..lowlevel.api_async.transports.utils import aclose_forcefully
 from ..lowlevel.socket import (
     INETSocketAttribute,
     ISocket,
@@ -445,7 +444,9 @@ class _ConnectedClientAPI(AsyncStreamClient[_T_Response]):
                 await self.__client.aclose()
         except self.backend().get_cancelled_exc_class():
             self.__closing = True
-            await aclose_forcefully(self.__client)
+            # Do not use aclose_forcefully(self.__client): if the cancellation happened while waiting for the lock,
+            # the task blocked in send_packet() holds the client's send guard.
+            await self.__client._aclose_forcefully()
             raise
 
     async def send_packet(self, packet: _T_Response, /) -> None:
